@@ -728,6 +728,10 @@ func goCode(root string, unit string) string {
 		header("Model.GoSem", "Model.GoIO")
 		text, errs := translateJtp(parseFile(root, "jtp/jtp.go"), []string{"parseStatusLine", "parseContentType", "parseLocation", "validateHeaders", "findLocation", "Get"})
 		emit("jtp/jtp.go (the response readers and what Get makes of a response)", text, errs)
+	case "jtpfront":
+		header("Model.GoSem", "Model.GoIO", "Model.GoNet", "Generated.GoJtp")
+		text, errs := translateJtpFront(parseFile(root, "jtp/jtp.go"))
+		emit("jtp/jtp.go (Get before the response is read: cache, scheme, dial target, deadline, request)", text, errs)
 	case "view":
 		header("Model.GoSem", "Model.GoSlices", "Model.GoCtl", "Model.Ansi", "Model.Style", "Generated.GoAnsi", "Generated.GoFeed", "Generated.GoHistory")
 		text, errs := translateView(root)
